@@ -177,7 +177,7 @@ struct Plan {
 
 fn plan_for(tier: &str) -> Plan {
     if tier == "thorough" {
-        Plan { thorough: true, ftier: explore_f::FTier::thorough(), maxlen: 7, ins_extras: 3, swarm_runs: 400_000 }
+        Plan { thorough: true, ftier: explore_f::FTier::thorough(), maxlen: 6, ins_extras: 3, swarm_runs: 400_000 }
     } else {
         Plan { thorough: false, ftier: explore_f::FTier::quick(), maxlen: 5, ins_extras: 2, swarm_runs: 60_000 }
     }
